@@ -221,6 +221,7 @@ func genC24(t *rapid.T) c24Case {
 	sc.Cfg.RetryDelayMs = 10000
 	sc.Cfg.Predef = map[string]map[uint16]string{"*": {1: "p/one", 2: "p/+/wild", 3: ""}}
 	sc.Auto = gwsim.Auto{Connack: gwgen.U8(0), BrokerAcks: true, ClientRegack: true, ClientAcks: true, BrokerPubrel: true, Suback: "grant"}
+	maybeEager(t, sc)
 	imp := func(s string) { c.Improper = append(c.Improper, s) }
 	add := func(s ...gwsim.Step) { sc.Steps = append(sc.Steps, s...) }
 	// connect exchange, possibly improper
